@@ -4,12 +4,13 @@
 (* A *layout* is a sequence of cells; every cell renders to a fixed byte string, the buffer handed to the   *)
 (* decoder is the concatenation of the cells with `cut` bytes chopped off its end (cut in {0,1}).            *)
 (*   0        End      00                                                                                    *)
-(*   1,2,3    Label    len (1, 2, 63) followed by len bytes (the letter of the cell: 'a' + cell index - 1)    *)
+(*   1,2,3    Label    len (1, 2, 63) followed by len bytes (the letter of the cell: Lid(cell index) in a-z0-9A-Z)  *)
 (*   4        Junk     40 + cell index   (a length octet with the reserved 01 prefix: "oversize label")       *)
 (*   10 + k   Ptr      C0xx -> first byte of cell k (1 <= k <= 9)                                             *)
 (*   20       PtrSize  C0xx -> offset = size of the (cut) buffer : the smallest out-of-range pointer          *)
 (*   21       PtrFar   FFFF -> offset 16383                                                                   *)
-(* Decoding always starts at cell 1 (offset 0).                                                              *)
+(*   1000 + k Ptr      C0xx -> first byte of cell k (any k; used by the generated deep-chain layouts)                *)
+(* Decoding starts at the first byte of cell `start` (1 for the enumerated layouts).                          *)
 EXTENDS Integers, Sequences, FiniteSets
 
 CE == 0
@@ -19,13 +20,25 @@ IsLabel(c) == c \in {1, 2, 3}
 LabLen(c) == CASE c = 1 -> 1 [] c = 2 -> 2 [] c = 3 -> 63 [] OTHER -> 0
 Sz(c) == IF IsPtr(c) THEN 2 ELSE IF IsLabel(c) THEN LabLen(c) + 1 ELSE 1
 Codes(n) == {0, 1, 2, 3, 4, 20, 21} \cup {10 + k : k \in 1..n}
+\* the letter a label cell is filled with, as an id (1 = 'a' ... 62 = 'Z' of a-z0-9A-Z): cell index modulo 62
+Lid(k) == ((k - 1) % 62) + 1
 
-RECURSIVE OffR(_, _)
-OffR(cells, k) == IF k <= 1 THEN 0 ELSE OffR(cells, k - 1) + Sz(cells[k - 1])    \* offset of cell k
-Full(cells) == OffR(cells, Len(cells) + 1)
-Size(cells, cut) == Full(cells) - cut
-Target(cells, cut, c) == IF c = 20 THEN Size(cells, cut) ELSE IF c = 21 THEN 16383 ELSE OffR(cells, c - 10)
-CellAt(cells, off) == CHOOSE k \in 1..Len(cells) : OffR(cells, k) = off        \* off is a cell start < Full
+\* Offs(cells)[k] = byte offset of cell k, Offs(cells)[Len + 1] = size of the whole buffer
+\* (sum by halving: the recursion stays logarithmic also for the 254-cell chain layouts)
+RECURSIVE SumSz(_, _, _)
+SumSz(cells, a, b) == IF a > b THEN 0 ELSE IF a = b THEN Sz(cells[a])
+                      ELSE LET m == (a + b) \div 2 IN SumSz(cells, a, m) + SumSz(cells, m + 1, b)
+\* built strictly as a tuple (a lazily evaluated function [k \in .. |-> SumSz(..)] would be recomputed at every use)
+RECURSIVE OffsRange(_, _, _, _)
+OffsRange(cells, a, b, base) == IF a > b THEN <<>> ELSE IF a = b THEN <<base>>
+                                ELSE LET m == (a + b) \div 2 IN
+                                     OffsRange(cells, a, m, base) \o OffsRange(cells, m + 1, b, base + SumSz(cells, a, m))
+Offs(cells) == OffsRange(cells, 1, Len(cells), 0) \o <<SumSz(cells, 1, Len(cells))>>
+SizeO(offs, cut) == offs[Len(offs)] - cut
+\* pointer codes: 10 + k (k <= 9) or 1000 + k : first byte of cell k; 20 : offset = size; 21 : offset 16383
+TargetO(offs, cut, c) == IF c = 20 THEN SizeO(offs, cut) ELSE IF c = 21 THEN 16383
+                         ELSE IF c >= 1000 THEN offs[c - 1000] ELSE offs[c - 10]
+CellAtO(offs, off) == CHOOSE k \in 1..(Len(offs) - 1) : offs[k] = off        \* off is a cell start < full size
 
 MaxWire == 255      \* RFC 1035: a name is at most 255 octets on the wire (length octets and root included)
 
@@ -41,26 +54,28 @@ MaxWire == 255      \* RFC 1035: a name is at most 255 octets on the wire (lengt
 (*          off the end without terminator, oversize name): the statement demands only termination without    *)
 (*          reading outside the buffer, "ending in a decoded message or a reported error"                     *)
 Mal == [c |-> "mal", name |-> <<>>, end |-> 0]
-RECURSIVE Walk(_, _, _, _, _, _, _, _)
-Walk(cells, cut, off, followed, labels, total, fwd, end) ==
-    LET size == Size(cells, cut) IN
+RECURSIVE Walk(_, _, _, _, _, _, _, _, _)
+Walk(cells, offs, cut, off, followed, labels, total, fwd, end) ==
+    LET size == SizeO(offs, cut) IN
     IF off >= size THEN Mal
-    ELSE LET k == CellAt(cells, off)
+    ELSE LET k == CellAtO(offs, off)
              c == cells[k] IN
          CASE c = CE -> IF total + 1 > MaxWire THEN Mal
                         ELSE [c |-> IF fwd THEN "fwd" ELSE "wf", name |-> labels, end |-> IF end < 0 THEN off + 1 ELSE end]
            [] c = CJ -> Mal
            [] IsLabel(c) -> IF off + 1 + LabLen(c) > size THEN Mal
-                            ELSE Walk(cells, cut, off + 1 + LabLen(c), followed, Append(labels, <<k, LabLen(c)>>),
+                            ELSE Walk(cells, offs, cut, off + 1 + LabLen(c), followed, Append(labels, <<Lid(k), LabLen(c)>>),
                                       total + 1 + LabLen(c), fwd, end)
            [] OTHER -> \* pointer
                 IF off + 2 > size THEN Mal
-                ELSE LET t == Target(cells, cut, c) IN
+                ELSE LET t == TargetO(offs, cut, c) IN
                      IF t >= size THEN [c |-> "range", name |-> <<>>, end |-> 0]
                      ELSE IF k \in followed THEN [c |-> "loop", name |-> <<>>, end |-> 0]
-                     ELSE Walk(cells, cut, t, followed \cup {k}, labels, total, fwd \/ t >= off,
+                     ELSE Walk(cells, offs, cut, t, followed \cup {k}, labels, total, fwd \/ t >= off,
                                IF end < 0 THEN off + 2 ELSE end)
-AbsClass(cells, cut) == Walk(cells, cut, 0, {}, <<>>, 0, FALSE, -1)
+\* decoding starts at the first byte of cell `start`; the number of pointers followed is NOT a criterion: RFC 1035
+\* bounds a name by 255 octets (at most 127 labels), so a well-formed name may need up to 126 jumps
+AbsClass(cells, cut, start) == LET o == Offs(cells) IN Walk(cells, o, cut, o[start], {}, <<>>, 0, FALSE, -1)
 
 \* res in {"ok", "err"}; anything else the driver may report ("crash", "hang") is never allowed
 Allowed(cls, res, name, end) ==
